@@ -33,6 +33,20 @@ let mk_choice (seed : int) : z -> z = fun zi ->
   x := !x lxor (!x lsr 15);
   z_of_int (!x land 0x3FFFFFFF)
 
+(* "SEED" or "SEED/i=v,i=v,...": the hash oracle with the answers at the listed indices forced (any function is a
+   legitimate choice oracle; the forced answers let the generator aim at given tile-type sequences) *)
+let mk_choice_ov (spec : string) : z -> z =
+  match String.index_opt spec '/' with
+  | None -> mk_choice (int_of_string spec)
+  | Some k ->
+      let base = mk_choice (int_of_string (String.sub spec 0 k)) in
+      let ovs = List.filter_map (fun kv ->
+                  match String.split_on_char '=' kv with
+                  | [i; v] -> Some (int_of_string i, int_of_string v)
+                  | _ -> None)
+                  (String.split_on_char ',' (String.sub spec (k + 1) (String.length spec - k - 1))) in
+      fun zi -> (match List.assoc_opt (int_of_z zi) ovs with Some v -> z_of_int v | None -> base zi)
+
 let bool_of s = s <> "0"
 let words_of_encs (ws : string list) : z list =
   List.map (fun w -> z_of_int (match String.lowercase_ascii w with
@@ -82,7 +96,7 @@ let enc_mode () =
         let bypp = !cur_bypp in
         let wi = int_of_string w and hi = int_of_string h in
         let rows = rows_of_hex pix bypp wi hi in
-        let ch = mk_choice (int_of_string seed) in
+        let ch = mk_choice_ov seed in
         let zb = z_of_int bypp in
         let hdr = rect_header (zi x) (zi y) (zi w) (zi h) (z_of_int (enc_num enc)) in
         (match enc with
